@@ -154,7 +154,7 @@ PROPS = {
     "C06": dict(
         props_module="Ucan.Props.C06",
         streams=["token"],
-        filter=_token_filter(["token.envelope:sig-", "token.envelope:hdr-", "token.bitflip", "token.honest"]),
+        filter=_token_filter(["token.envelope:sig-", "token.envelope:hdr-", "token.bitflip", "token.honest"]),  # incl. sig-old-field, sig-concurrent, hdr-old-sig
         technique="Lean 4 proof that an accepted envelope was inspected to exactly [signature, {header, tagged payload}], that the header is the varsig header of the issuer key's type (table regenerated from varsig.go), that the signature verifies under the key of the issuer DID of the DECODED payload over the canonical encoding of the decoded SigPayload, and (with injectivity of the encoding, C08) that every decoded field is a function of the signed bytes; tied by harness-built, re-signed and corrupted envelopes incl. every single-bit flip",
         level_text="C06_verified, C06_decoded_parts_are_signed, C06_fields_function_of_signed_bytes, C06_inspect_shape for every node and every instantiation of the crypto parameters. Go's six decoders are compared with the model on honest tokens (3–5 key algorithms), foreign/garbage/missing varsig headers, signatures by another key, truncated/empty/non-bytes signatures, and every third (every, thorough) single-bit flip of sealed Ed25519 tokens; accept/reject and all decoded fields.",
         level_note=_TOKEN_NOTE + " Conditional on EUF-CMA of the signature schemes: the theorems reduce 'no accepted modification changes a field' to 'no valid signature on a different message', they do not prove unforgeability.",
